@@ -12,7 +12,9 @@ import random
 from harness.lib import hx, zl, cz, cbool, clist, copt
 
 ID = 'C07'
-RULE = ('programs of 1..6 NumPy-style steps (row/column integer, slice, mask, fancy indexing, reversal, ==/!= with '
+RULE = ('(plus: a coverage grid of every listed operation x ragged/flat x every encoding with negative indices and empty '
+        'selections; copy() of never-observed views; (non-letter member)+32 operand characters) '
+        'programs of 1..6 NumPy-style steps (row/column integer, slice, mask, fancy indexing, reversal, ==/!= with '
         'character / string / list / array, item assignment through every index form, concatenate/append/insert/where, '
         'copy, ravel, str/tolist/string_array, ragged_slice, strops.split/join/str_equal) applied to '
         'bnp.as_encoded_array(list of 0..N strings | one string) over each encoding; every step is valid for the '
@@ -40,8 +42,20 @@ PARTIAL = ['history only: C07_lookup_pinned_partial / C07_program_pinned_partial
            'DigitEncoding "P"); C07_lookup / C07_program are unrestricted for the table of /repo HEAD, which the model uses',
            'history only: C07_step_pinned_partial / _refuted describe the code before fix 5b17763 (one character stored at ONE '
            'integer position raised); C07_step_repaired says the code at HEAD is the step function the theorems are about',
-           'string_array(...) (op SArr) is outside the simulation theorem (trailing NULs vanish in the fixed-width view); '
-           'it is checked by correspondence only',
+           'string_array(...) (op SArr) is inside the simulation theorems under the explicit hypothesis that the decoded text has '
+           'no NUL (C07_step_simulation: per state; C07_program: every alphabet without NUL, C07_alphabet_nul_free); for the '
+           'base encoding inside programs it is correspondence only (trailing NULs vanish in the fixed-width view)',
+           'npstructures views: C07_view_* prove that the (buffer, starts, lengths, step) view model denotes the list semantics '
+           'for row selection, positive-step column slices, reversal, ravel and any program of those; a general negative-step '
+           'column slice is modelled as transcribed (validated by correspondence) and refuted as a Python slice '
+           '(C07_view_negative_step_refuted = finding C07-nps-negstep-empty-row); the view model is itself validated against '
+           'the implementation on every program (Corr.view_ok), npstructures\' code is not verified',
+           'C07_model_ok_implies_spec(_ok): for linkable cases (writeable buffers, no negative-step column slice with explicit '
+           'start, string_array only over NUL-free alphabets)',
+           'listed in the property and generated: integer / slice / mask / fancy indexing on rows and columns, reversal, '
+           'comparison with character / string / list / array, item assignment, concatenation, copy, ravel, str / tolist / '
+           'to_string / string_array — on ragged and flat arrays for every encoding (coverage grid); NOT in the property list '
+           'and not generated: 2-D EncodedArray, T, reshape, lexsort / argsort / bincount, zeros_like, change_encoding',
            'unsupported forms, not generated: np.full_like(encoded, ch) (TypeError always), r[rows] = ch and r[rows, a:b] = ch '
            '(a single character is not broadcast over a multi-row selection: AttributeError), r[[], []] with untyped empty lists']
 PER_FILE = 40
@@ -971,6 +985,41 @@ def generate(tier, seed):
             init = dict(kind='F', s=_rstr(rng, 'DNA' if enc == 'Base' else enc, rng.randint(2, 6)))
             enc = 'DNA' if enc == 'Base' else enc       # base-encoded text from a str is read-only at HEAD (finding)
         cases.append(_program(rng, enc, init, rng.randint(0, 2), forced=('copy', 'set', 'set')))
+    # 6. coverage grid: every operation the property LISTS, on ragged AND flat arrays, for EVERY encoding, with a
+    #    boundary-shaped operand (negative indices, empty selection, empty rows) and a random one
+    listed_r = ['row_int', 'row_slice', 'row_fancy', 'row_mask', 'col_slice', 'col_rev', 'rc', 'rows_col', 'elem', 'elems',
+                'eq', 'mask_eq', 'set', 'concat', 'copy', 'ravel', 'str', 'sarr', 'streq', 'join']
+    listed_f = ['idx', 'rev', 'eq', 'mask_eq', 'set', 'concat', 'copy', 'ravel', 'str', 'iter', 'split', 'fslices']
+    reps = 1 if tier == 'quick' else 4
+    for enc in ENC_IDS:
+        a = _alpha_chars(enc)
+        r_inits = [[a[0] + a[1 % len(a)] + a[-1], '', a[-1]], [_rstr(rng, enc, rng.randint(0, 3)) for _ in range(rng.randint(1, 4))]]
+        f_inits = [a[0] + a[-1] + a[0], _rstr(rng, enc, rng.randint(1, 5))]
+        for name in listed_r:
+            for rows in r_inits:
+                for _ in range(reps):
+                    cases.append(_program(rng, enc, dict(kind='R', rows=list(rows)), 0, forced=(name,)))
+        for name in listed_f:
+            for s0 in f_inits:
+                for _ in range(reps):
+                    cases.append(_program(rng, enc, dict(kind='F', s=s0), 0, forced=(name,)))
+        # explicit boundary operands: negative indices and empty selections on rows and on columns, both kinds
+        rows = r_inits[0]
+        for ops in ([['row_int', -1]], [['row_int', -3]], [['row_slice', [-2, None, None]]], [['row_slice', [2, 1, None]]],
+                    [['row_fancy', []]], [['row_fancy', [-1, -3, 0]]], [['row_mask', [False, False, False]]],
+                    [['col_slice', [-1, None, None], False]], [['col_slice', [5, None, None], True]], [['col_slice', [None, None, -1], False]],
+                    [['rc', ['f', [-1, 0]], [None, -1, None]]], [['rc', ['m', [True, False, True]], [-2, None, None]]], [['rc', ['i', -3], [None, None, -1]]],
+                    [['rows_col', ['f', [0, -1]], -1]], [['rows_col', ['f', []], 0]], [['elem', -3, -2]], [['elems', [0, 2], [-1, -1]]],
+                    [['mask_eq', a[1 % len(a)], False]], [['concat', [['selfslice', [1, 1, None]], ['l', []]]]],
+                    [['set', ['rows', ['f', []]], ['a', []]]], [['set', ['row', -3], ['s', a[-1] * 3]]], [['set', ['elem', -1, -1], ['c', a[0]]]],
+                    [['set', ['rc', ['s', [None, None, None]], [5, None, None]], ['a', ['', '', '']]]]):
+            cases.append(dict(enc=enc, init=dict(kind='R', rows=list(rows)), ops=ops))
+        s0 = f_inits[0]
+        for ops in ([['idx', ['i', -1]]], [['idx', ['i', -3]]], [['idx', ['s', [-2, None, None]]]], [['idx', ['s', [3, None, None]]]],
+                    [['idx', ['f', []]]], [['idx', ['f', [-1, -3]]]], [['idx', ['m', [False, False, False]]]], [['idx', ['s', [None, None, -1]]]],
+                    [['set', ['idx', ['i', -1]], ['c', a[0]]]], [['set', ['idx', ['s', [1, 1, None]]], ['a', '']]], [['set', ['idx', ['f', [-1, 0]]], ['s', a[-1] + a[-1]]]],
+                    [['concat', [['selfslice', [2, 1, None]], ['l', '']]]], [['eq', ['s', s0], False]], [['eq', ['a', s0[::-1]], True]]):
+            cases.append(dict(enc=enc, init=dict(kind='F', s=s0), ops=ops))
     # 5. copy() of a view that nothing has materialised yet: the selection step and the copy step are NOT observed;
     #    after the assignment the copy, the selection it was taken from and (when only the copy is assigned) the
     #    initial array are read: list semantics says the copy is an independent value
@@ -1262,9 +1311,41 @@ def finding(case, obs):
             return 'C07-setitem-scalar-position'
     if op[0] == 'sarr' and o.get('err') == 'ValueError' and st[0] == 'R' and st[2] and all(r == '' for r in st[2]):
         return 'C07-string-array-all-empty'
-    if _negstep_empty(st, op) and (o.get('k') in ('R', 'F') or o.get('err') in ('IndexError', 'AssertionError', 'ValueError')):
+    if _negstep_empty(st, op) and _negstep_shape(st, op, o):
         return 'C07-nps-negstep-empty-row'
     return None
+
+
+def _negstep_shape(st, op, o):
+    """exactly the listed failure: every selected NON-empty row is Python's slice, every selected EMPTY row comes back with at
+    most one character (getitem), or IndexError (read past the buffer) / the shape assertion or broadcast error of the
+    assignment whose target was computed with those lengths"""
+    rows = st[2]
+    if op[0] == 'set':
+        return o.get('k') == 'E' and o.get('err') in ('AssertionError', 'ValueError', 'IndexError')
+    if o.get('k') == 'E':
+        return o.get('err') == 'IndexError'
+    if op[0] == 'col_slice':
+        t, sub, flat = op[1], rows, False
+    else:
+        t, sub, flat = op[2], _sel_list(op[1], rows), op[1][0] == 'i'
+        sub = [sub] if flat else sub
+    got = o.get('v')
+    if flat:
+        if o.get('k') != 'F':
+            return False
+        got = [got]
+    elif o.get('k') != 'R':
+        return False
+    if not isinstance(got, list) or len(got) != len(sub):
+        return False
+    for r, g in zip(sub, got):
+        if len(r) == 0:
+            if len(g) > 1:
+                return False
+        elif g != r[_sl(t)]:
+            return False
+    return True
 
 
 def signature(case, obs):
@@ -1303,7 +1384,11 @@ def describe(case, obs):
 def distribution(cases, obs):
     d = dict(ops={}, encodings={}, program_length={}, init={'ragged': 0, 'flat': 0}, zero_rows=0, all_empty_rows=0, single_row=0,
              has_empty_row=0, errors={})
+    cov = {}
     for c, ob in zip(cases, obs):
+        for o in c['ops'][:1]:
+            key = '%s/%s' % (c['init']['kind'], o[0])
+            cov.setdefault(key, set()).add(c['enc'])
         d['encodings'][c['enc']] = d['encodings'].get(c['enc'], 0) + 1
         k = str(len(c['ops']))
         d['program_length'][k] = d['program_length'].get(k, 0) + 1
@@ -1321,6 +1406,7 @@ def distribution(cases, obs):
         for o in ob if isinstance(ob, list) else []:
             if o.get('k') == 'E':
                 d['errors'][o['err']] = d['errors'].get(o['err'], 0) + 1
+    d['first_op_by_kind_covered_encodings'] = {k: len(v) for k, v in sorted(cov.items())}
     return d
 
 
